@@ -378,7 +378,7 @@ PROPS["C05"] = mux_prop(
     assumptions=[], explanation="EOF is reported iff the inbound sender is gone and everything queued was returned; a zero-length write is followed through to the peer's reader; Finish closes only the inbound direction; shutdown emits exactly one Finish and later writes fail with BrokenPipe.")
 
 PROPS["C06"] = mux_prop(
-    "C06", pick("c06_", extra=["c10_reset_est", "c10_reset_est_full", "c10_reset_requested", "c10_reset_bindreq", "c07_request_rejected_r1"]),
+    "C06", pick("c06_", extra=["c10_finish_est", "c10_finish_est_readclosed", "c10_reset_est", "c10_reset_est_full", "c10_reset_requested", "c10_reset_bindreq", "c07_request_rejected_r1"]),
     note="close paths from an arbitrary table; re-open of a released id",
     bounds=dict(table="<= 3 slots, bystander in an arbitrary state", closed_flow="symbolic credit / closed flag / one queued frame / counter"), outside=COMMON_OUTSIDE + ["open/close cycles longer than close + re-open (each step is checked from an arbitrary bounded table instead)"],
     assumptions=[], explanation="Drop without shutdown -> Reset once and slot removed; drop after shutdown -> no Reset; peer Reset -> no reply, queued data then EOF, BrokenPipe; table shrinks by one; a re-opened id starts with fresh credit, flags, queue and counters; bystander untouched.")
